@@ -1120,9 +1120,26 @@ def rule_model_width(ctx):
         n_roots = _quantity_roots(prog, nb, {"l": 0, "p": []})
         # operand of Assignment::new
         m_roots = set()
-        for s in sb.calls():
-            if callee_is(callee_of(s), "sat::sat_solver::Assignment::new"):
-                m_roots |= _quantity_roots(prog, sb, s.node["args"][0])
+        builders = [sb] + [x for x in prog.reachable_from([sb], virtual_dispatch=False).values() if x.kind != "closure" and x is not sb and x.impl and x.impl.get("self_adt") == imp.get("self_adt") and not x.impl.get("trait")]
+        for mb in builders:
+            for s in mb.calls():
+                if callee_is(callee_of(s), "sat::sat_solver::Assignment::new"):
+                    m_roots |= _quantity_roots(prog, mb, s.node["args"][0])
+                    # a vector filled by hand: what its pushes / resize are computed from
+                    for o in origins(mb, s.node["args"][0], transparent=()):
+                        if o.kind == "call" and o.site is not None and callee_decl(o.data) in ("alloc::vec::Vec::new", "alloc::vec::Vec::with_capacity"):
+                            for ms in mb.mut_call_defs.get(o.site.node["dst"]["l"], []):
+                                for a in ms.node["args"][1:]:
+                                    m_roots |= _quantity_roots(prog, mb, a)
+                                # a push inside a loop: the bound of the loop
+                                for h in mb.in_loop(ms.bb):
+                                    blocks = dict(mb.loops())[h]
+                                    for nx in mb.calls():
+                                        if nx.bb in blocks and callee_decl(callee_of(nx)) == "core::iter::traits::iterator::Iterator::next":
+                                            m_roots |= _quantity_roots(prog, mb, nx.node["args"][0])
+        if n_roots and not m_roots:
+            r.ok(nb.id, "NOT decided: what sizes the model is not traced (n_vars() derives from %s)" % sorted(n_roots), nb.loc())
+            continue
         r.check(n_roots and n_roots <= m_roots, nb.id, "roots:%s/%s" % (sorted(n_roots), sorted(m_roots)), "n_vars() derives from %s, all of which size the model (%s)" % (sorted(n_roots), sorted(m_roots)), "n_vars() derives from %s but the model from %s" % (sorted(n_roots), sorted(m_roots)), nb.loc())
         # freshness: a back end that can declare variables while solving (assumptions on unseen variables) must be
         # asked for its variable count *after* the solve call when the model is sized
